@@ -430,6 +430,7 @@ func runC04(c *Ctx) {
 		c.CapHit("deadline")
 	}
 	c04Deep(c)
+	c04SinglePass(c)
 	c.SetCount("configurations", int64(len(bases)))
 	c.SetCount("save_positions_and_chains", int64(len(jobs)))
 	c.Sample("save", saveCase{N: 5, A: 0, M: 2, Pred: "triangle-free", Place: "prune", K: 3})
@@ -437,7 +438,127 @@ func runC04(c *Ctx) {
 	_ = graph.Equal
 }
 
+// c04SinglePass: one pass over a long run; at EVERY position the iterator is saved, the bytes are loaded, and the
+// loaded iterator's next `look` outputs (and its exhaustion) are compared with the uninterrupted run. Linear in the
+// length of the run, so it reaches n = 10 (path entries and choice counts beyond one byte) and all of n = 9.
+type passCase struct {
+	N     int    `json:"n"`
+	Pred  string `json:"predicate"`
+	Place string `json:"placement"`
+	Look  int    `json:"look_ahead"`
+	Only  int    `json:"only_position,omitempty"` // replay: check just this position (1-based; 0 = all)
+}
+
+func evalPass(pc passCase) *Failure {
+	sc := saveCase{N: pc.N, A: 0, M: 1, Pred: pc.Pred, Place: pc.Place}
+	mk := func(k int, cl, what string) *Failure {
+		r := pc
+		r.Only = k + 1
+		return &Failure{Class: "search-save/single-pass/" + cl, What: fmt.Sprintf("n=%d %s/%s save after %d graphs: %s", pc.N, pc.Pred, pc.Place, k, what), Kind: "save-pass", Replay: r}
+	}
+	var f *Failure
+	msg, pan := try(func() {
+		it := makeIter(sc.cfg(), 0)
+		var trace []string
+		for it.Next() {
+			mask, prob := valueMask(it, pc.N)
+			if prob != "" {
+				f = mk(len(trace), "uninterrupted-run-malformed", prob)
+				return
+			}
+			trace = append(trace, g6(pc.N, mask))
+			if len(trace) > 20000000 {
+				break
+			}
+		}
+		T := len(trace)
+		orig := makeIter(sc.cfg(), 0)
+		for k := 0; k <= T; k++ {
+			if pc.Only == 0 || pc.Only == k+1 {
+				var buf bytes.Buffer
+				var loaded *search.GraphIterator
+				var got []string
+				var more bool
+				var prob string
+				m2, p2 := try(func() {
+					orig.Save(&buf)
+					loaded = search.Load(bytes.NewReader(buf.Bytes()), pickPre(sc), pickPrune(sc))
+					got, more, prob = advance(loaded, pc.N, pc.Look)
+				})
+				if p2 {
+					f = mk(k, "panic", m2)
+					return
+				}
+				want := trace[k:]
+				if len(want) > pc.Look {
+					want = want[:pc.Look]
+				}
+				if prob != "" || !sameStrs(got, want) || (more != (len(want) == pc.Look)) {
+					f = mk(k, "loaded-iterator-wrong-output", fmt.Sprintf("loaded iterator continues %v (more=%v) %s, the run continues %v", got, more, prob, want))
+					return
+				}
+			}
+			if k < T {
+				if !orig.Next() {
+					f = mk(k, "original-disturbed-by-save", "the saved iterator stops early")
+					return
+				}
+				if mask, _ := valueMask(orig, pc.N); g6(pc.N, mask) != trace[k] {
+					f = mk(k, "original-disturbed-by-save", fmt.Sprintf("the saved iterator yields %s, the uninterrupted run %s", g6(pc.N, mask), trace[k]))
+					return
+				}
+			}
+		}
+	})
+	if pan {
+		return mk(0, "panic", msg)
+	}
+	return f
+}
+
+func pickPre(sc saveCase) func(*graph.DenseGraph) bool {
+	if sc.Place == "preprune" || sc.Place == "both" {
+		return pruneFn(predByName(sc.Pred))
+	}
+	return noPrune
+}
+
+func pickPrune(sc saveCase) func(*graph.DenseGraph) bool {
+	if sc.Place == "prune" || sc.Place == "both" {
+		return pruneFn(predByName(sc.Pred))
+	}
+	return noPrune
+}
+
+func c04SinglePass(c *Ctx) {
+	cases := []passCase{
+		{N: 10, Pred: "at-most-10-non-edges", Place: "prune", Look: 3},
+		{N: 10, Pred: "at-most-10-non-edges", Place: "preprune", Look: 2},
+		{N: 10, Pred: "at-most-8-edges", Place: "prune", Look: 3},
+		{N: 9, Pred: "at-most-10-non-edges", Place: "both", Look: 3},
+		{N: 8, Pred: "none", Place: "none", Look: 2},
+	}
+	if c.Thorough() {
+		cases = append(cases, passCase{N: 9, Pred: "none", Place: "none", Look: 2}, passCase{N: 10, Pred: "triangle-free", Place: "prune", Look: 2}, passCase{N: 11, Pred: "at-most-10-non-edges", Place: "prune", Look: 2})
+	}
+	c.parFor(int64(len(cases)), 1, func(lo, hi int64) {
+		for _, pc := range cases[lo:hi] {
+			pc := pc
+			c.Check(func() *Failure { return evalPass(pc) })
+			c.Nontrivial(1)
+		}
+	})
+	c.SetCount("single_pass_runs", int64(len(cases)))
+}
+
 func replayC04(kind string, raw json.RawMessage) *Failure {
+	if kind == "save-pass" {
+		var pc passCase
+		if err := json.Unmarshal(raw, &pc); err != nil {
+			return &Failure{Class: "replay/bad-file", What: err.Error()}
+		}
+		return evalPass(pc)
+	}
 	if kind != "save" {
 		return unsupportedKind(kind)
 	}
